@@ -39,7 +39,7 @@ class SRecord:
 def write_srecord(obj, f):
     """Write object to srecord"""
     data = obj.get_section("code").data
-    record = SRecord(1, 0, b"HDR")
+    record = SRecord(0, 0, b"HDR")
     print(record.to_line(), file=f)
     address = 0
     for chunk in chunks(data):
